@@ -1,6 +1,8 @@
 //! Shared utilities of the verification harnesses (deterministic PRNG, token output, simulated chain).
 pub mod rng;
 pub mod simchain;
+pub mod simnode;
+pub mod world;
 
 use std::fmt::Write as _;
 
@@ -29,4 +31,42 @@ pub fn env_u64(name: &str, default: u64) -> u64 {
         .ok()
         .and_then(|v| v.parse().ok())
         .unwrap_or(default)
+}
+
+/// location (file:line) of the last panic, set by the hook `install_panic_hook` installs
+pub static LAST_PANIC: std::sync::Mutex<Option<String>> = std::sync::Mutex::new(None);
+
+pub fn install_panic_hook() {
+    std::panic::set_hook(Box::new(|info| {
+        let loc = info
+            .location()
+            .map(|l| {
+                let f = l.file();
+                let f = f.rsplit("/repo/").next().unwrap_or(f);
+                format!("{}:{}", f, l.line())
+            })
+            .unwrap_or_else(|| "?".into());
+        if let Ok(mut g) = LAST_PANIC.lock() {
+            *g = Some(loc);
+        }
+    }));
+}
+
+/// A logger that discards everything but makes `log::info!` evaluate its arguments, as the
+/// logger teosd installs does (module level Info).
+struct NullLogger;
+impl log::Log for NullLogger {
+    fn enabled(&self, m: &log::Metadata) -> bool {
+        m.level() <= log::Level::Info
+    }
+    fn log(&self, r: &log::Record) {
+        // format the arguments (as a real logger would) and drop the text
+        let _ = format!("{}", r.args());
+    }
+    fn flush(&self) {}
+}
+static NULL_LOGGER: NullLogger = NullLogger;
+pub fn install_null_logger() {
+    let _ = log::set_logger(&NULL_LOGGER);
+    log::set_max_level(log::LevelFilter::Info);
 }
